@@ -180,7 +180,11 @@ _EXC = {"ValueError": ValueError, "KeyError": KeyError, "RuntimeError": RuntimeE
 
 def exc_class(name):
     if name not in _EXC:
-        _EXC[name] = type(name, (Exception,), {})
+        import builtins
+        real = getattr(builtins, name, None)
+        # a name of a built-in exception means THAT class (relays that catch TypeError / OSError / ... for their own
+        # purposes must not swallow, retry or translate the application's)
+        _EXC[name] = real if isinstance(real, type) and issubclass(real, Exception) else type(name, (Exception,), {})
     return _EXC[name]
 
 
@@ -1238,7 +1242,7 @@ def cases(rng, tier):
             for headers in SMALL_HEADERS:
                 for chunks in SMALL_CHUNKS:
                     for start_at in (0, None, 1, 2):
-                        for err in (None, "Boom"):
+                        for err in (None, "Boom", "TypeError"):
                             yield mk_wsgi(hs, start_at, status, headers, chunks, err)
                     for form in ("l", "t", "i", "x"):
                         yield mk_wsgi(hs, 0, status, headers, chunks, None, form)
@@ -1273,7 +1277,8 @@ def cases(rng, tier):
         if kind < 0.45:
             chunks = [random_chunk(rng) for _ in range(rng.choice([0, 1, 1, 2, 3, 5]))]
             start_at = rng.choice([0, 0, 0, 0, 0, 0, None, 1, len(chunks), rng.randrange(0, 4)])
-            err = rng.choice([None, None, None, "Boom", "KeyError", "ValueError"])
+            err = rng.choice([None, None, None, "Boom", "KeyError", "ValueError", "TypeError", "AttributeError", "OSError",
+                              "ConnectionResetError", "LookupError", "AssertionError"])
             form = rng.choice(["g", "g", "l", "t", "i", "x"])
             yield mk_wsgi(hs, start_at, random_status(rng), headers, chunks, err, form)
         elif kind < 0.9:
@@ -1295,7 +1300,8 @@ def cases(rng, tier):
                 events.insert(rng.randrange(len(events) + 1), ("o",))
             elif r < 0.15:
                 events.insert(rng.randrange(len(events) + 1), rng.choice(events))
-            err = rng.choice([None, None, None, None, "Boom", "RuntimeError"])
+            err = rng.choice([None, None, None, None, "Boom", "RuntimeError", "TypeError", "AttributeError", "OSError",
+                              "ConnectionResetError", "AssertionError"])
             yield mk_asgi(hs, events, err)
         else:
             heads = [(k, v) for k, v in headers if not any(c in k + v for c in "\r\n\0")]
